@@ -58,6 +58,7 @@ type vC07Scn struct {
 	Present bool         `json:"present"`
 	Wf      bool         `json:"wf"`
 	Same    bool         `json:"same"`
+	Lenonly bool         `json:"lenonly"`
 	CSeed   int64        `json:"cseed"`
 	Streams []vC07Stream `json:"streams"`
 	OddWS   bool         `json:"oddws"`
@@ -424,7 +425,7 @@ func vC07RunVerify(scn *vC07Scn, rng *rand.Rand) []map[string]interface{} {
 	}
 	events = append(events, map[string]interface{}{"ev": "verify", "via": "arvados", "rel": rel, "res": vC07Res(err)})
 	reset := map[string]interface{}{
-		"ev": "reset", "scn": scn.ID, "kind": "verify", "wf": scn.Wf, "same": scn.Same,
+		"ev": "reset", "scn": scn.ID, "kind": "verify", "wf": scn.Wf, "same": scn.Same, "lenonly": scn.Lenonly,
 		"loc": loc, "vtoken": vtok, "vkey_hex": hex.EncodeToString(vkey), "vttl": strconv.FormatInt(vttl, 10),
 		"eprime": strconv.FormatInt(eprime, 10), "pdata_hex": hex.EncodeToString(pblock), "phash": phash,
 		"src": src, "signed_token": t1, "signed_ttl": strconv.FormatInt(ttl1, 10),
@@ -573,7 +574,7 @@ func vC07RunManifest(scn *vC07Scn, rng *rand.Rand) []map[string]interface{} {
 		}
 	}
 	events := []map[string]interface{}{{
-		"ev": "reset", "scn": scn.ID, "kind": "manifest", "wf": true, "same": true,
+		"ev": "reset", "scn": scn.ID, "kind": "manifest", "wf": true, "same": true, "lenonly": false,
 		"manifest": manifest, "signed": out, "token": tok,
 	}}
 	othersame, hashsame := true, true
